@@ -61,6 +61,7 @@ Proof.
 Qed.
 
 Lemma send_control_with7_ok st c tok :
+  tlen tok ->
   match st with Online7 o => online_ok pp7 o | _ => True end ->
   match c with
   | Close r => (length r <= 127)%nat /\ existsb (fun b => b =? 0) r = false
@@ -69,7 +70,7 @@ Lemma send_control_with7_ok st c tok :
   end ->
   exists ds, send_control_with7 st c tok = Ok ds /\ Forall (dgram_ok pp7) ds.
 Proof.
-  intros Hst Hc. unfold send_control_with7.
+  intros Htl Hst Hc. unfold send_control_with7.
   assert (Hbad : match c with Connect (Some r) | TokenMsg r => tokb r TOKEN_NONE | _ => false end = false).
   { destruct c as [|[r|]| | |r|r]; try reflexivity; apply tokb_false', Hc. }
   rewrite Hbad.
@@ -77,7 +78,7 @@ Proof.
   { apply control_small7. destruct c; try exact I. apply Hc. }
   replace (MAX_PACKETSIZE <? control_size pp7 (Some tok) c) with false by lia.
   eexists. split; [reflexivity|]. constructor; [|constructor]. unfold dgram_ok.
-  split.
+  split; [exact Htl|]. split.
   { destruct st; try (unfold SEQ_MOD; lia). destruct Hst as [_ [_ [_ [_ [_ [Ha _]]]]]]. exact Ha. }
   split; [exact Hsz|]. destruct c; try exact I. destruct Hc as [_ Hn]. clear -Hn.
   induction reason as [|b r IH]; [reflexivity|]. cbn [existsb forallb] in *.
@@ -108,16 +109,16 @@ Proof.
   destruct (c7_state c) as [|own|own|own their|own their|o|] eqn:Es.
   - eexists. split; [reflexivity|]. cbn. unfold conn_ok7. cbn. rewrite Es. repeat split; constructor.
   - destruct Hst as [Hl Hn].
-    destruct (send_control_with7_ok (Token7 own) (TokenMsg own) TOKEN_NONE I Hn) as [ds [Hs Hds]].
+    destruct (send_control_with7_ok (Token7 own) (TokenMsg own) TOKEN_NONE eq_refl I Hn) as [ds [Hs Hds]].
     cbn [their_token]. rewrite Hs. cbn [bind]. eexists. split; [reflexivity|]. cbn. unfold conn_ok7, set_send7. cbn. rewrite Es.
     repeat split; try assumption; discriminate.
   - eexists. split; [reflexivity|]. cbn. unfold conn_ok7. rewrite Es. repeat split; try apply Hst; constructor.
   - destruct Hst as [Hl1 [Hl2 Hn]].
-    destruct (send_control_with7_ok (Connecting7 own their) (Connect (Some own)) their I Hn) as [ds [Hs Hds]].
+    destruct (send_control_with7_ok (Connecting7 own their) (Connect (Some own)) their Hl2 I Hn) as [ds [Hs Hds]].
     cbn [their_token]. rewrite Hs. cbn [bind]. eexists. split; [reflexivity|]. cbn. unfold conn_ok7, set_send7. cbn. rewrite Es.
     repeat split; try assumption; discriminate.
   - destruct Hst as [Hl1 Hl2].
-    destruct (send_control_with7_ok (Pending7 own their) Accept their I I) as [ds [Hs Hds]].
+    destruct (send_control_with7_ok (Pending7 own their) Accept their Hl2 I I) as [ds [Hs Hds]].
     cbn [their_token]. rewrite Hs. cbn [bind]. eexists. split; [reflexivity|]. cbn. unfold conn_ok7, set_send7. cbn. rewrite Es.
     repeat split; try assumption; discriminate.
   - destruct Hst as [Hon [[a [Ha Hla]] [b [Hb Hlb]]]]. destruct (can_send o) eqn:Ecs.
@@ -127,7 +128,7 @@ Proof.
       split; [|split; [exact Hds|split; [reflexivity|exact I]]].
       split; [exact Hok'|]. split; [exists a; rewrite Ho; split; assumption|].
       split; [exists b; rewrite Hth; split; assumption|discriminate].
-    + destruct (send_control_with7_ok (Online7 o) KeepAlive b Hon I) as [ds [Hs Hds]].
+    + destruct (send_control_with7_ok (Online7 o) KeepAlive b Hlb Hon I) as [ds [Hs Hds]].
       cbn [their_token]. rewrite Hb. rewrite Hs. cbn [bind]. eexists. split; [reflexivity|]. cbn.
       unfold conn_ok7, set_send7. cbn. rewrite Es.
       split; [|split; [exact Hds|split; [reflexivity|exact I]]].
@@ -213,7 +214,7 @@ Proof.
         try (eexists; split; [reflexivity|]; cbn; split; [exact Hc1|constructor]).
       * rewrite Hrnd. cbn [bind].
         destruct (token_random7_spec _ _ _ Hrl Hrnd) as [Hlt [Hnt _]].
-        destruct (send_control_with7_ok (PendingConnect7 rt) (TokenMsg rt) resp I Hnt) as [ds [Hs Hds]].
+        destruct (send_control_with7_ok (PendingConnect7 rt) (TokenMsg rt) resp Hresp I Hnt) as [ds [Hs Hds]].
         rewrite Hs. cbn [bind]. eexists. split; [reflexivity|]. cbn. split; [|exact Hds].
         unfold conn_ok7. cbn. split; assumption.
       * destruct Hst1 as [Hl Hn].
@@ -221,7 +222,7 @@ Proof.
         { cbn. split; [exact Hl|]. split; [exact Hresp|exact Hn]. }
         exists out. split; [exact Ho|]. split; assumption.
       * destruct Hst1 as [Hl Hn].
-        destruct (send_control_with7_ok (PendingConnect7 own) (TokenMsg own) resp I Hn) as [ds [Hs Hds]].
+        destruct (send_control_with7_ok (PendingConnect7 own) (TokenMsg own) resp Hresp I Hn) as [ds [Hs Hds]].
         rewrite Hs. cbn [bind]. eexists. split; [reflexivity|]. cbn. split; [exact Hc1|exact Hds].
   - (* chunks *)
     destruct Hd as [Htk [Hack Hcs]]. unfold feed7.
@@ -316,13 +317,20 @@ Proof.
       * eexists. split; [reflexivity|]. cbn. split; [exact Hc|constructor].
   - (* disconnect *)
     destruct Hv as [H2 [Hn Hl]]. rewrite Hn.
-    destruct (c7_state c) as [|own|own|own their|own their|on|] eqn:Es; try contradiction; unfold send_control7.
-    all: match goal with
-         | |- context [send_control_with7 ?st ?ctl ?tk] =>
-           destruct (send_control_with7_ok st ctl tk) as [ds [Hsc Hds]];
-           [first [exact I | apply Hst] | split; assumption |
-            rewrite Hsc; cbn [bind]; eexists; split; [reflexivity|]; cbn; split; [exact I|exact Hds]]
-         end.
+    assert (Hcl : (length reason <= 127)%nat /\ existsb (fun b => b =? 0) reason = false) by (split; assumption).
+    assert (Hfin : forall st tk, tlen tk -> match st with Online7 o => online_ok pp7 o | _ => True end ->
+              exists out, (let* d := send_control_with7 st (Close reason) tk in
+                           Ok (mk7 {| c7_state := Disconnected7; c7_send := c7_send c |} e d [] [] R7Ok)) = Ok out /\
+                          conn_ok7 (out7_conn out) /\ Forall (dgram_ok pp7) (out7_sent out)).
+    { intros st tk Htl Hs. destruct (send_control_with7_ok st (Close reason) tk Htl Hs Hcl) as [ds [Hsc Hds]].
+      rewrite Hsc. cbn [bind]. eexists. split; [reflexivity|]. cbn. split; [exact I|exact Hds]. }
+    destruct (c7_state c) as [|own|own|own their|own their|on|] eqn:Es; try contradiction; unfold send_control7; cbn [their_token].
+    + apply Hfin; [reflexivity|exact I].
+    + apply Hfin; [reflexivity|exact I].
+    + apply Hfin; [reflexivity|exact I].
+    + apply Hfin; [apply Hst|exact I].
+    + apply Hfin; [apply Hst|exact I].
+    + destruct Hst as [Hok [_ [b [Hb Hlb]]]]. rewrite Hb. apply Hfin; [exact Hlb|exact Hok].
   - (* connless *)
     destruct Hv as [on Hon]. rewrite Hon in *. destruct Hst as [Hok [HA HB]].
     destruct (MAX_PAYLOAD <? Z.of_nat (length data)) eqn:El.
